@@ -451,11 +451,17 @@ def c_handler_adapter(kind: int, n0: int, n1: int, bp: bool, err: bool, limit_ra
                 if not rn or any(x > limit_rate for x in rn):
                     devs.append('C20:channel-adapter-requests-more-than-limit_rate-at-a-time')
                 k = 0
-                while k < 2 and sum(rn) > k:
+                while k < 5:
+                    rn = [f.request_n for f in t.frames(sid) if isinstance(f, RequestNFrame)]
+                    if sum(rn) <= k:
+                        # the requester still has elements but the adapter stopped granting credit: the direction stalls
+                        devs.append('C20:channel-inbound-direction-stalls-after-%d-elements' % k)
+                        break
+                    if sum(rn) - k > limit_rate:
+                        devs.append('C20:outstanding-demand-exceeds-limit_rate')
                     t.feed_wire(to_payload_frame(sid, Payload(bytes([120 + k])), complete=False))
                     k += 1
                     loop.run_ready()
-                    rn = [f.request_n for f in t.frames(sid) if isinstance(f, RequestNFrame)]
                 t.feed_wire(to_payload_frame(sid, Payload(), complete=True, is_next=False))
                 loop.run_ready()
                 want_in = [('N', bytes([120 + i])) for i in range(k)] + [('C',)]
